@@ -286,6 +286,8 @@ type c16Writer struct {
 	lists map[string]string
 	lord  []string
 	cases []string
+	// runs against a NEW code whose Version constant was bumped: (Version, case)
+	bcases []string
 }
 
 func newC16Writer() *c16Writer {
@@ -712,6 +714,9 @@ func (r *c16Run) roll(force bool) {
 	for _, c := range r.w.cases {
 		size += len(c)
 	}
+	for _, c := range r.w.bcases {
+		size += len(c)
+	}
 	for _, b := range r.w.pool.order {
 		size += 4*len(b) + 30
 	}
@@ -751,6 +756,7 @@ func (r *c16Run) writeCases(path string, acases []string, stdaccRows map[string]
 	sb.WriteString("Definition cases : list mcase := [\n")
 	sb.WriteString(strings.Join(r.w.cases, ";\n"))
 	sb.WriteString("\n].\n")
+	sb.WriteString("Definition bcases : list (Z * mcase) := " + ListLit(r.w.bcases) + ".\n")
 	var srows []string
 	for k, v := range stdaccRows {
 		srows = append(srows, fmt.Sprintf("(%s, %s)", k, v))
@@ -759,7 +765,7 @@ func (r *c16Run) writeCases(path string, acases []string, stdaccRows map[string]
 	sb.WriteString("Definition stdacc_rows : list (bytes * bytes) := " + ListLit(srows) + ".\n")
 	sb.WriteString("Definition acases : list acase := " + ListLit(acases) + ".\n")
 	fmt.Fprintf(&sb, "Example constants_of_the_tree : (real_prev, real_version) = (%d, %d).\nProof. reflexivity. Qed.\n", common.PrevVersion, common.Version)
-	sb.WriteString("Definition M := Eval vm_compute in failures_from 0\n  (map (check_mig (ms_table ms_rows) (fun _ => None) (bytes_table h160_rows) real_prev real_version) cases ++\n   map (check_alpha (opt_table stdacc_rows) real_prev real_version) acases).\nPrint M.\n")
+	sb.WriteString("Definition M := Eval vm_compute in failures_from 0\n  (map (check_mig (ms_table ms_rows) (fun _ => None) (bytes_table h160_rows) real_prev real_version) cases ++\n   map (fun p => check_mig (ms_table ms_rows) (fun _ => None) (bytes_table h160_rows) real_prev (fst p) (snd p)) bcases ++\n   map (check_alpha (opt_table stdacc_rows) real_prev real_version) acases).\nPrint M.\n")
 	require.NoError(r.t, os.WriteFile(path, []byte(sb.String()), 0o644))
 }
 
@@ -924,6 +930,7 @@ func (p *c16Pools) container(owner []byte, i int) []byte {
 type legacy struct {
 	Contract string            `json:"contract"`
 	V        int64             `json:"version"`
+	NewVer   int64             `json:"updated_to_version,omitempty"` // 0: the tree's own Version
 	Data     c16Item           `json:"data"`
 	KV       map[string][]byte `json:"-"`
 	Dump     [][2]string       `json:"storage"`
@@ -1344,6 +1351,7 @@ type c16NNSName struct {
 	owner  []byte
 	admin  []byte
 	expire int64
+	rereg  bool // registered anew after the update (expiration is then the chain's business)
 }
 
 // c16NNSTruth is what was planted into a legacy NNS storage.
@@ -1367,9 +1375,40 @@ func (tr *c16NNSTruth) registered(name string) bool {
 	return false
 }
 
-// tokenOf mirrors nns.tokenIDFromName: the longest registered suffix of the
-// name that is not the bare TLD, the name itself if there is none.
-func (tr *c16NNSTruth) tokenOf(name string) string {
+// c16Expired is the expiration (ms) planted for names whose registration is
+// over at the time of the update; live names expire in the year 37000.
+const c16Expired = 1000
+
+func (tr *c16NNSTruth) get(name string) *c16NNSName {
+	for i := range tr.names {
+		if tr.names[i].name == name {
+			return &tr.names[i]
+		}
+	}
+	return nil
+}
+
+// live: registered and not expired.
+func (tr *c16NNSTruth) live(name string) bool {
+	n := tr.get(name)
+	return n != nil && n.expire > c16Expired
+}
+
+// chainLive: the name and all its parents down to the TLD are live (what
+// ownerOf/properties need).
+func (tr *c16NNSTruth) chainLive(name string) bool {
+	fr := strings.Split(name, ".")
+	for i := 0; i < len(fr); i++ {
+		if !tr.live(strings.Join(fr[i:], ".")) {
+			return false
+		}
+	}
+	return true
+}
+
+// plantToken: the token under which the records of a name were stored when
+// they were added (the longest registered suffix that is not the bare TLD).
+func (tr *c16NNSTruth) plantToken(name string) string {
 	fr := strings.Split(name, ".")
 	sum := 0
 	for i := 0; i < len(fr)-1; i++ {
@@ -1381,25 +1420,40 @@ func (tr *c16NNSTruth) tokenOf(name string) string {
 	return name
 }
 
+// tokenOf mirrors nns.tokenIDFromName at read time: the longest LIVE suffix of
+// the name that is not the bare TLD, the name itself if there is none.
+func (tr *c16NNSTruth) tokenOf(name string) string {
+	fr := strings.Split(name, ".")
+	sum := 0
+	for i := 0; i < len(fr)-1; i++ {
+		if tr.live(name[sum:]) {
+			return name[sum:]
+		}
+		sum += len(fr[i]) + 1
+	}
+	return name
+}
+
 // readable: getRecords/getAllRecords/resolve of the name do not fault (the
-// token exists and so do all its parents).
+// token is live, so are all its parents) and they look where the records were
+// planted.
 func (tr *c16NNSTruth) readable(name string) bool {
 	tok := tr.tokenOf(name)
-	if !tr.registered(tok) || !strings.Contains(tok, ".") {
-		return false
+	return strings.Contains(tok, ".") && tr.chainLive(tok)
+}
+
+// stored: the records the read paths find for a readable name (those planted
+// under the token the name resolves to now).
+func (tr *c16NNSTruth) stored(name string) []c16Rec {
+	if tr.tokenOf(name) != tr.plantToken(name) {
+		return nil
 	}
-	fr := strings.Split(tok, ".")
-	for i := 1; i < len(fr); i++ {
-		if !tr.registered(strings.Join(fr[i:], ".")) {
-			return false
-		}
-	}
-	return true
+	return tr.recs[name]
 }
 
 func (tr *c16NNSTruth) ofType(name string, typ int64) []string {
 	out := []string{}
-	for _, r := range tr.recs[name] {
+	for _, r := range tr.stored(name) {
 		if r.typ == typ {
 			out = append(out, r.data)
 		}
@@ -1417,7 +1471,7 @@ func (tr *c16NNSTruth) resolve(res []string, name string, typ int64, redirect in
 		return nil, false
 	}
 	cname := ""
-	for _, r := range tr.recs[name] {
+	for _, r := range tr.stored(name) {
 		if r.typ == typ {
 			res = append(res, r.data)
 		}
@@ -1433,17 +1487,16 @@ func (tr *c16NNSTruth) resolve(res []string, name string, typ int64, redirect in
 
 // available mirrors nns.IsAvailable for syntactically valid names whose TLD exists.
 func (tr *c16NNSTruth) available(name string) bool {
-	fr := strings.Split(name, ".")
-	chain := true
-	for i := 0; i < len(fr); i++ {
-		chain = chain && tr.registered(strings.Join(fr[i:], "."))
-	}
-	if chain {
+	if tr.chainLive(name) {
 		return false
+	}
+	fr := strings.Split(name, ".")
+	if len(fr) == 1 {
+		return true
 	}
 	parent := name[len(fr[0])+1:]
 	for n, rs := range tr.recs {
-		if len(rs) > 0 && tr.tokenOf(n) == parent && tr.registered(parent) && len(n) > len(name) && strings.HasSuffix(n, name) {
+		if len(rs) > 0 && tr.plantToken(n) == parent && len(n) > len(name) && strings.HasSuffix(n, name) {
 			return false // a record of a deeper name stored under the parent's token
 		}
 	}
@@ -1494,8 +1547,30 @@ func genNNS(t testing.TB, r *rand.Rand, p *c16Pools, v int64, h160 map[string][]
 		tr.supply++
 	}
 	ntld := r.Intn(len(p.tlds) + 1)
+	// names whose registration is over at the time of the update: a TLD (its
+	// children are then unreadable), a second-level name (possibly with a live
+	// child), a leaf
+	expired := map[string]bool{}
+	if ntld > 0 && r.Intn(3) == 0 {
+		expired[p.tlds[r.Intn(ntld)]] = true
+		l.shape("expired:tld")
+	}
+	if r.Intn(3) == 0 {
+		expired[pick(r, []string{"x.org", "a.container", "netmap.neofs"})] = true
+		l.shape("expired:second-level")
+	}
+	if r.Intn(5) == 0 {
+		expired["deep.x.org"] = true
+		l.shape("expired:leaf")
+	}
+	life := func(name string) int64 {
+		if expired[name] {
+			return c16Expired
+		}
+		return 1 << 50
+	}
 	for _, tld := range p.tlds[:ntld] {
-		nm := c16NNSName{name: tld, expire: 1 << 50}
+		nm := c16NNSName{name: tld, expire: life(tld)}
 		if old {
 			nm.owner = committee
 			if r.Intn(4) == 0 {
@@ -1524,7 +1599,7 @@ func genNNS(t testing.TB, r *rand.Rand, p *c16Pools, v int64, h160 map[string][]
 				continue
 			}
 		}
-		nm := c16NNSName{name: name, owner: pick(r, p.acc[:3]), expire: 1 << 50}
+		nm := c16NNSName{name: name, owner: pick(r, p.acc[:3]), expire: life(name)}
 		if r.Intn(3) == 0 {
 			nm.admin = p.acc[5]
 		}
@@ -1546,7 +1621,7 @@ func genNNS(t testing.TB, r *rand.Rand, p *c16Pools, v int64, h160 map[string][]
 	// 16 per type, so a name may hold 17, 20, 40 records of a type; ids are not
 	// assumed dense either.
 	putRec := func(name string, typ int64, id int, data string) {
-		tok := tr.tokenOf(name)
+		tok := tr.plantToken(name)
 		rk := cat([]byte{0x22}, rip(tok), rip(name), []byte{byte(typ), byte(id)})
 		l.keep(rk, ser(t, siStruct(siBytes([]byte(name)), siInt(typ), siBytes([]byte(data)), siInt(int64(id)))))
 		tr.recs[name] = append(tr.recs[name], c16Rec{typ, byte(id), data})
@@ -1742,13 +1817,21 @@ func isNull(it stackitem.Item) bool {
 	return ok
 }
 
-// runLegacy injects l, updates the stub to the tree's contract and checks.
+// runLegacy injects l, updates the stub to the tree's contract (to the tree's
+// contract with common.Version bumped to l.NewVer, if that is set) and checks.
 func (r *c16Run) runLegacy(l *legacy, coqName string) {
 	t := r.t
 	r.roll(false)
+	newRoot, newVer := RepoDir, int64(common.Version)
+	if l.NewVer != 0 {
+		newRoot, newVer = r.scratchAt(l.NewVer), l.NewVer
+		if newRoot == "" {
+			return // the tree cannot be patched (recorded in Stats.Extra)
+		}
+	}
 	v := NewEnv(t)
 	sender := v.E.Validator.ScriptHash()
-	nw := c16Compile(t, sender, RepoDir, l.Contract)
+	nw := c16Compile(t, sender, newRoot, l.Contract)
 	stub := r.stubFor(v, nw, l.Contract)
 	v.E.DeployContract(t, stub, nil)
 	h := stub.Hash
@@ -1785,8 +1868,14 @@ func (r *c16Run) runLegacy(l *legacy, coqName string) {
 		l.Dump = append(l.Dump, [2]string{Hex(kv.K), Hex(kv.V)})
 	}
 	sort.Strings(l.Shape)
-	r.w.cases = append(r.w.cases, fmt.Sprintf("mkCase (OStub %s (env_basic %d%%Z [] [] []) true (%s)) %s %s %s %s",
-		coqName, c16Height, l.Data.coq(r.w.pool), r.w.dump(before), BoolLit(res.Halt), r.w.dump(after), ZI(ver)))
+	coqCase := fmt.Sprintf("mkCase (OStub %s (env_basic %d%%Z [] [] []) true (%s)) %s %s %s %s",
+		coqName, c16Height, l.Data.coq(r.w.pool), r.w.dump(before), BoolLit(res.Halt), r.w.dump(after), ZI(ver))
+	if l.NewVer != 0 {
+		r.w.bcases = append(r.w.bcases, fmt.Sprintf("(%s, %s)", ZI(newVer), coqCase))
+		r.st.OpHistogram["migrate-to-bumped-version/"+l.Contract]++
+	} else {
+		r.w.cases = append(r.w.cases, coqCase)
+	}
 	r.st.Evaluations++
 	r.st.Histories++
 	r.st.OpHistogram["migrate/"+l.Contract]++
@@ -1813,7 +1902,7 @@ func (r *c16Run) runLegacy(l *legacy, coqName string) {
 	bad := func(f string, a ...any) {
 		r.st.AddViolation("C16 "+l.Contract+": "+fmt.Sprintf(f, a...), l)
 	}
-	inRange := int64(common.PrevVersion) <= l.V && l.V < int64(common.Version)
+	inRange := int64(common.PrevVersion) <= l.V && l.V < newVer
 	if !res.Halt {
 		if !c16DumpEq(before, after) {
 			bad("faulted update changed the storage")
@@ -1831,8 +1920,8 @@ func (r *c16Run) runLegacy(l *legacy, coqName string) {
 		bad("update halted although %s", l.ExpectFault)
 		return
 	}
-	if ver != int64(common.Version) {
-		bad("version() = %d after the update", ver)
+	if ver != newVer {
+		bad("version() = %d after the update to %d", ver, newVer)
 	}
 	am := map[string][]byte{}
 	for _, kv := range after {
@@ -2050,10 +2139,11 @@ func (r *c16Run) checkNetmap(v *Env, h util.Uint160, l *legacy, am map[string][]
 	}
 }
 
-func (r *c16Run) checkNNS(v *Env, h util.Uint160, l *legacy, bad func(string, ...any)) {
-	tr := l.nns
+// checkNNSNep11 compares every NEP-11 reader (and roots/getPrice/isAvailable)
+// with the planted ground truth.
+func (r *c16Run) checkNNSNep11(v *Env, h util.Uint160, tr *c16NNSTruth, when string, extraOwners [][]byte, bad func(string, ...any)) {
 	if got := v.ReadInt(h, "totalSupply").Int64(); got != tr.supply {
-		bad("totalSupply = %d after the update, %d before", got, tr.supply)
+		bad("totalSupply = %d %s, %d before", got, when, tr.supply)
 	}
 	strs := func(it stackitem.Item) []string {
 		out := []string{}
@@ -2078,61 +2168,99 @@ func (r *c16Run) checkNNS(v *Env, h util.Uint160, l *legacy, bad func(string, ..
 		all[n.name] = true
 	}
 	if it, err := v.Read(h, "tokens"); err != nil || !sameSet(strs(it), all) {
-		bad("tokens() does not list exactly the %d planted names after the update (%v)", len(all), err)
+		bad("tokens() does not list exactly the %d planted names %s (%v)", len(all), when, err)
 	}
 	if it, err := v.Read(h, "roots"); err != nil || !sameSet(strs(it), tr.tlds) {
-		bad("roots() does not list exactly the planted TLDs after the update (%v)", err)
+		bad("roots() does not list exactly the planted TLDs %s (%v)", when, err)
 	}
 	if got := v.ReadInt(h, "getPrice").Int64(); got != 10_0000_0000 {
-		bad("getPrice() = %d after the update", got)
+		bad("getPrice() = %d %s", got, when)
 	}
 	owned := map[string]map[string]bool{}
 	for _, n := range tr.names {
 		if tr.tlds[n.name] {
 			continue
 		}
+		// the owner index does not look at expirations
 		if owned[string(n.owner)] == nil {
 			owned[string(n.owner)] = map[string]bool{}
 		}
 		owned[string(n.owner)][n.name] = true
-		if it, err := v.Read(h, "ownerOf", n.name); err != nil || !bytes.Equal(ItemBytes(it), n.owner) {
-			bad("ownerOf(%s) differs after the update (%v)", n.name, err)
+		ok := tr.chainLive(n.name)
+		it, err := v.Read(h, "ownerOf", n.name)
+		if (err == nil) != ok {
+			bad("ownerOf(%s): fault = %v %s, expected fault = %v (expired name or parent)", n.name, err != nil, when, !ok)
+		} else if ok && !bytes.Equal(ItemBytes(it), n.owner) {
+			bad("ownerOf(%s) = %x %s, planted owner %x", n.name, ItemBytes(it), when, n.owner)
 		}
-		it, err := v.Read(h, "properties", n.name)
-		if err != nil {
-			bad("properties(%s) faults after the update: %v", n.name, err)
-		} else if m, ok := it.Value().([]stackitem.MapElement); !ok {
-			bad("properties(%s) is not a map", n.name)
-		} else {
+		it, err = v.Read(h, "properties", n.name)
+		if (err == nil) != ok {
+			bad("properties(%s): fault = %v %s, expected fault = %v", n.name, err != nil, when, !ok)
+		} else if ok {
+			m, isMap := it.Value().([]stackitem.MapElement)
+			if !isMap {
+				bad("properties(%s) is not a map", n.name)
+			}
 			for _, e := range m {
 				switch string(ItemBytes(e.Key)) {
 				case "name":
 					if string(ItemBytes(e.Value)) != n.name {
-						bad("properties(%s).name differs after the update", n.name)
+						bad("properties(%s).name differs %s", n.name, when)
 					}
 				case "expiration":
-					if ItemInt(e.Value).Int64() != n.expire {
-						bad("properties(%s).expiration differs after the update", n.name)
+					if !n.rereg && ItemInt(e.Value).Int64() != n.expire {
+						bad("properties(%s).expiration differs %s", n.name, when)
 					}
 				case "admin":
 					if !bytes.Equal(ItemBytes(e.Value), n.admin) {
-						bad("properties(%s).admin differs after the update", n.name)
+						bad("properties(%s).admin differs %s", n.name, when)
 					}
 				}
 			}
 		}
-		if it, err := v.Read(h, "isAvailable", n.name); err != nil || isNull(it) || ItemInt(it).Sign() != 0 {
-			bad("isAvailable(%s) is not false for a registered name after the update (%v)", n.name, err)
+	}
+	for _, n := range tr.names {
+		if tr.tlds[n.name] {
+			continue
+		}
+		want := tr.available(n.name)
+		if it, err := v.Read(h, "isAvailable", n.name); err != nil || isNull(it) || (ItemInt(it).Sign() != 0) != want {
+			bad("isAvailable(%s) is not %v %s (%v)", n.name, want, when, err)
 		}
 	}
-	for _, o := range r.pools.acc[:6] {
+	sum := int64(0)
+	for _, o := range append(append([][]byte{}, r.pools.acc[:6]...), extraOwners...) {
 		want := owned[string(o)]
-		if got := v.ReadInt(h, "balanceOf", o).Int64(); got != int64(len(want)) {
-			bad("balanceOf(%x) = %d after the update, owns %d non-TLD names", o, got, len(want))
+		got := v.ReadInt(h, "balanceOf", o).Int64()
+		sum += got
+		if got != int64(len(want)) {
+			bad("balanceOf(%x) = %d %s, the account owns %d non-TLD names", o, got, when, len(want))
 		}
 		if it, err := v.Read(h, "tokensOf", o); err != nil || !sameSet(strs(it), want) && len(want) > 0 || len(want) == 0 && len(itemsOf(it)) != 0 {
-			bad("tokensOf(%x) differs after the update", o)
+			bad("tokensOf(%x) lists %d names %s, the account owns %d non-TLD names", o, len(itemsOf(it)), when, len(want))
 		}
+	}
+	nonTLD := int64(0)
+	for _, n := range tr.names {
+		if !tr.tlds[n.name] {
+			nonTLD++
+		}
+	}
+	if sum != nonTLD {
+		bad("sum of balances = %d %s, %d names have an owner (TLDs are committee-owned)", sum, when, nonTLD)
+	}
+}
+
+func (r *c16Run) checkNNS(v *Env, h util.Uint160, l *legacy, bad func(string, ...any)) {
+	tr := l.nns
+	r.checkNNSNep11(v, h, tr, "after the update", nil, bad)
+	defer r.nnsReregister(v, h, l, bad)
+	strs := func(it stackitem.Item) []string {
+		out := []string{}
+		for _, x := range itemsOf(it) {
+			out = append(out, string(ItemBytes(x)))
+		}
+		return out
 	}
 	// records: every read path against the planted content and against each other
 	var names []string
@@ -2153,7 +2281,7 @@ func (r *c16Run) checkNNS(v *Env, h util.Uint160, l *legacy, bad func(string, ..
 		byType := map[int64][]string{}
 		if readable {
 			var want, got []string
-			for _, rc := range tr.recs[name] {
+			for _, rc := range tr.stored(name) {
 				want = append(want, fmt.Sprintf("%s|%d|%s|%d", name, rc.typ, rc.data, rc.id))
 			}
 			for _, x := range itemsOf(it) {
@@ -2199,6 +2327,54 @@ func (r *c16Run) checkNNS(v *Env, h util.Uint160, l *legacy, bad func(string, ..
 	}
 	if _, err := v.Read(h, "isAvailable", "free.nosuchtld"); err == nil {
 		bad("isAvailable under a TLD that does not exist answers after the update")
+	}
+}
+
+// nnsReregister: after the update the committee registers the expired TLDs
+// anew and an expired second-level name goes to a new owner; the NEP-11
+// readers must follow (no stale balance or token index entry of a former
+// owner).
+func (r *c16Run) nnsReregister(v *Env, h util.Uint160, l *legacy, bad func(string, ...any)) {
+	tr := l.nns
+	did := false
+	const tenYears = int64(10 * 365 * 24 * 3600)
+	for i := range tr.names {
+		n := &tr.names[i]
+		if tr.tlds[n.name] && n.expire <= c16Expired {
+			res := v.Invoke(nil, h, "registerTLD", n.name, "ops@nspcc.ru", int64(3600), int64(600), tenYears, int64(3600))
+			if !res.Halt {
+				bad("registerTLD(%s) of an expired TLD faults after the update: %s", n.name, res.Fault)
+				continue
+			}
+			n.owner, n.admin, n.expire, n.rereg = nil, nil, 1<<51, true
+			did = true
+		}
+	}
+	newOwner := v.E.Validator.ScriptHash().BytesBE()
+	for i := range tr.names {
+		n := &tr.names[i]
+		if strings.Count(n.name, ".") != 1 || n.expire > c16Expired || !tr.live(n.name[strings.Index(n.name, ".")+1:]) {
+			continue
+		}
+		if !tr.available(n.name) {
+			continue // a record of a deeper name under the TLD's token blocks it
+		}
+		res := v.Invoke(nil, h, "register", n.name, newOwner, "ops@nspcc.ru", int64(3600), int64(600), tenYears, int64(3600))
+		if !res.Halt || len(res.Stack) != 1 {
+			bad("register(%s) of an expired name faults after the update: %s", n.name, res.Fault)
+			continue
+		}
+		if ok, err := res.Stack[0].TryBool(); err != nil || !ok {
+			bad("register(%s) of an expired name returns false after the update", n.name)
+			continue
+		}
+		n.owner, n.admin, n.expire, n.rereg = newOwner, nil, 1<<51, true
+		did = true
+	}
+	if did {
+		l.shape("re-registered")
+		r.st.OutcomeHistogram["migrate/nns/re-registration-after-update"]++
+		r.checkNNSNep11(v, h, tr, "after the update and the re-registration of the expired names", [][]byte{newOwner}, bad)
 	}
 }
 
@@ -2309,6 +2485,27 @@ func (r *c16Run) corpus() []*legacy {
 		}
 		l.shape("corpus:ids-and-owners-starting-with-prefix-bytes")
 	})
+	// the NEXT release: a deployment AT the tree's own version that still has the un-prefixed
+	// container layout (the key migration is not version-gated, i.e. the tree says such storages
+	// exist) is updated to the tree's code with common.Version bumped
+	for _, nv := range []int64{int64(common.Version) + 1, int64(common.Version) + 1000} {
+		nv := nv
+		mk("container", int64(common.Version), func(l *legacy) {
+			l.NewVer = nv
+			for i := 0; i < 3; i++ {
+				cid, ow := p.cid[i], p.owner[i%2]
+				tr := c16CnrTruth{value: p.container(ow, i), sig: p.junk[3], pub: p.pub[0], token: []byte{}, owner: ow}
+				l.put(cid, ser(t, siStruct(siBytes(tr.value), siBytes(tr.sig), siBytes(tr.pub), siBytes(tr.token))))
+				l.put(cat(ow, cid), cid)
+				l.gone = append(l.gone, string(cid), string(cat(ow, cid)))
+				l.cnrs[string(cid)] = tr
+			}
+			for _, k := range []string{"netmapScriptHash", "balanceScriptHash", "identityScriptHash", "nnsScriptHash"} {
+				l.keep([]byte(k), p.acc[3])
+			}
+			l.shape("corpus:old-layout-at-the-current-version-updated-to-the-next")
+		})
+	}
 	// premise of C16_preserves_balance: a prefixed key colliding with an account is overwritten
 	mk("balance", 19000, func(l *legacy) {
 		l.put(p.acc[0], acct(10))
@@ -2403,6 +2600,77 @@ func (r *c16Run) corpus() []*legacy {
 			l.shape("corpus:more-than-16-records-of-a-type")
 		})
 	}
+	// NNS below 0.18 with names whose registration is over at the time of the update: an expired
+	// TLD with its former owner (the update must still hand it to the committee: nothing else ever
+	// cleans that owner's balance and token index), an expired second-level name with a live
+	// child, a live TLD; afterwards the expired names are registered anew
+	for _, ver := range []int64{17000, prev, 19000} {
+		ver := ver
+		mk("nns", ver, func(l *legacy) {
+			tr := &c16NNSTruth{tlds: map[string]bool{"com": true, "org": true}, recs: map[string][]c16Rec{}}
+			l.nns = tr
+			rip := func(s string) []byte {
+				h := hash.RipeMD160([]byte(s)).BytesBE()
+				r.h160[s] = h
+				return h
+			}
+			old := ver < 18000
+			bal := map[string]int64{}
+			state := func(name string, owner []byte, expire int64, tld bool) {
+				var ow stackitem.Item = stackitem.Null{}
+				if owner != nil {
+					ow = siBytes(owner)
+				}
+				key := cat([]byte{0x21}, rip(name))
+				val := ser(t, siStruct(ow, siBytes([]byte(name)), siInt(expire), stackitem.Null{}))
+				if tld && old {
+					l.put(key, val)
+					atk := cat([]byte{0x02}, owner, rip(name))
+					l.put(atk, []byte(name))
+					l.gone = append(l.gone, string(atk))
+					bal[string(owner)]++
+					owner = nil
+				} else {
+					l.keep(key, val)
+					if owner != nil {
+						l.keep(cat([]byte{0x02}, owner, rip(name)), []byte(name))
+						bal[string(owner)]++
+					}
+				}
+				if tld {
+					l.keep(cat([]byte{0x20}, []byte(name)), []byte{0})
+				}
+				tr.names = append(tr.names, c16NNSName{name: name, owner: owner, expire: expire})
+				tr.supply++
+			}
+			var tldOwner1, tldOwner2 []byte
+			if old {
+				tldOwner1, tldOwner2 = p.acc[1], p.acc[0]
+			}
+			state("com", tldOwner1, c16Expired, true) // expired TLD
+			state("org", tldOwner2, 1<<50, true)
+			state("shop.com", p.acc[1], 1<<50, false) // live child of the expired TLD
+			state("x.org", p.acc[2], c16Expired, false)
+			state("deep.x.org", p.acc[1], 1<<50, false) // live child of an expired name
+			state("y.org", p.acc[2], 1<<50, false)
+			for o, n := range bal {
+				if old && (o == string(p.acc[1]) || o == string(p.acc[0])) {
+					l.put(cat([]byte{0x01}, []byte(o)), intBytes(n))
+				} else {
+					l.keep(cat([]byte{0x01}, []byte(o)), intBytes(n))
+				}
+			}
+			l.keep([]byte{0x00}, intBytes(tr.supply))
+			l.keep([]byte{0x10}, intBytes(10_0000_0000))
+			for _, n := range []string{"shop.com", "x.org", "y.org"} {
+				rk := cat([]byte{0x22}, rip(n), rip(n), []byte{16, 0})
+				l.keep(rk, ser(t, siStruct(siBytes([]byte(n)), siInt(16), siBytes([]byte("txt of "+n)), siInt(0))))
+				tr.recs[n] = []c16Rec{{16, 0, "txt of " + n}}
+			}
+			tr.query = []string{"free.com", "free.org"}
+			l.shape("corpus:expired-tld-and-names")
+		})
+	}
 	// data shapes
 	mk("proxy", prev, func(l *legacy) { l.Data = c16Arr(); l.ExpectFault = "empty data"; l.shape("corpus:data-empty") })
 	mk("proxy", prev, func(l *legacy) { l.Data = c16Null; l.ExpectFault = "null data"; l.shape("corpus:data-null") })
@@ -2456,6 +2724,30 @@ func (r *c16Run) partB() {
 			c, seedSalt := pl.c, 100000*(ci+1)+i
 			r.guard(fmt.Sprintf("migration of a generated %s storage (version %d, generator salt %d)", c, v, seedSalt),
 				func() { r.runLegacy(r.gen(rr, c, v), coq[c]) })
+		}
+	}
+	// updates TO a later release (common.Version bumped in a scratch copy of the
+	// tree) FROM the tree's own version and its neighbours: every version-gated
+	// or ungated migration step must treat "deployed at the current version"
+	// as the tree's own gates say
+	for bi, nv := range []int64{ver + 1, ver + 1000} {
+		steps := []struct {
+			c    string
+			from int64
+		}{{"container", ver}, {"container", nv - 1}, {"container", ver - 1}, {"balance", ver}, {"balance", ver - 1},
+			{"netmap", ver}, {"netmap", 18999}, {"nns", ver}, {"nns", 17999}, {"neofsid", ver}, {"audit", nv - 1}, {"reputation", ver},
+			{"alphabet", ver}, {"processing", ver}, {"proxy", nv}, {"neofs", prev - 1}}
+		for si, st := range steps {
+			for k := 0; k < mult; k++ {
+				rr := Rng(int64(7_000_000 + 100_000*bi + 1000*si + k))
+				c, from, nv := st.c, st.from, nv
+				r.guard(fmt.Sprintf("migration of a generated %s storage from version %d to the bumped version %d", c, from, nv), func() {
+					l := r.gen(rr, c, from)
+					l.NewVer = nv
+					l.shape(fmt.Sprintf("to-bumped-version:+%d", nv-ver))
+					r.runLegacy(l, coq[c])
+				})
+			}
 		}
 	}
 }
